@@ -1,4 +1,144 @@
-import AffVerif.Model.Reduce
-/-! # C04 (theorems added below as they are proved) -/
+import AffVerif.Proofs.ElimShape
+import AffVerif.Props.C08
+/-!
+# C04 — every operation history keeps a tree well-formed and usable
+
+`PT.Shaped K n m t`: every node map is well formed with `n` columns, every node has `K` slots, all terminals
+have `m` rows, every decision has at most `log₂ K` rows, and a node is a terminal (no child) exactly when its map
+is read as a terminal map — in particular a decision never loses all its children.  `Shaped` is the hypothesis
+of every evaluation theorem (C02, C03, C07, C08) and of "the next dimension-compatible operation does not panic"
+(the model operations are total; the dimension guards the code asserts are exactly the hypotheses below).
+
+Proved: the step theorems for `apply_func`, un-pruned `compose`, `infeasible_elimination` (for every solver
+behaviour), `reduce`, negation and the mixed tree/affine operators, the constructors, and their closure under
+histories.  Open (checked by the correspondence on every history, not yet proved): pruned composition and the
+tree-tree operators, whose result shape is that of `graftP`.
+-/
+set_option linter.unusedSectionVars false
+set_option linter.unusedVariables false
 namespace AV
+variable {α : Type} [Field α] [LinearOrder α] [IsStrictOrderedRing α]
+
+theorem C04_apply_func (t : PT α) (a : Aff α) (K n : Nat) (ha : a.WF) (ht : PT.Shaped K n a.indim t) :
+    PT.Shaped K n a.outdim (PT.applyFunc t a) := by
+  unfold PT.applyFunc
+  refine PT.shaped_mapTerminals _ t K n a.indim a.outdim (fun f hf hin hout => ?_) ht
+  exact ⟨compose_wf a f ha hf, hin, compose_outdim a f⟩
+
+theorem C04_compose (f g : PT α) (c : Nat) (K n m p : Nat) (hf : PT.Shaped K n m f) (hg : PT.Shaped K m p g) :
+    PT.Shaped K n p (PT.composeS Schema.compose f g c).1 :=
+  PT.shaped_composeS f g c K n m p hf hg
+
+/-- no hypothesis on the LP backend or on `mirror_points`: well-formedness does not depend on the solver being right -/
+theorem C04_elim {σ : Type} (tol : α) (O : Oracles σ α) (n m : Nat) (t : PT α) (s : σ) (h : PT.Shaped 2 n m t) :
+    PT.Shaped 2 n m (infeasibleElimination tol O n t s).1 :=
+  PT.shaped_infeasibleElimination tol O n m t s h
+
+theorem neg_wf (f : Aff α) (hf : f.WF) : f.neg.WF ∧ f.neg.indim = f.indim ∧ f.neg.outdim = f.outdim := by
+  unfold Aff.neg Aff.WF Aff.outdim
+  simp only [matNeg, vneg, List.length_map, List.mem_map]
+  refine ⟨⟨?_, hf.2⟩, trivial, trivial⟩
+  rintro r ⟨r0, hr0, rfl⟩
+  simp [hf.1 r0 hr0]
+
+theorem C04_neg (t : PT α) (K n m : Nat) (ht : PT.Shaped K n m t) : PT.Shaped K n m (PT.mapTerminals Aff.neg t) :=
+  PT.shaped_mapTerminals _ t K n m m (fun f hf hin hout => by
+    obtain ⟨h1, h2, h3⟩ := neg_wf f hf
+    exact ⟨h1, by rw [h2, hin], by rw [h3, hout]⟩) ht
+
+/-- mixed tree/affine operators: any terminal map transformer that keeps well-formedness and dimensions -/
+theorem C04_scalar_op (φ : Aff α → Aff α) (t : PT α) (K n m : Nat)
+    (hφ : ∀ a : Aff α, a.WF → a.indim = n → a.outdim = m → (φ a).WF ∧ (φ a).indim = n ∧ (φ a).outdim = m)
+    (ht : PT.Shaped K n m t) : PT.Shaped K n m (PT.mapTerminals φ t) :=
+  PT.shaped_mapTerminals φ t K n m m hφ ht
+
+theorem PKids.reduceAux_length (ks : PKids α) : (PKids.reduceAux ks).length = ks.length := by
+  match ks with
+  | .nil => simp [PKids.reduceAux, IKids.length]
+  | .cons none r => simp [PKids.reduceAux, IKids.length, PKids.reduceAux_length r]
+  | .cons (some k) r => simp [PKids.reduceAux, IKids.length, PKids.reduceAux_length r]
+
+mutual
+theorem PT.shaped_reduceAux (isRoot : Bool) (t : PT α) (K n m : Nat) (h : PT.Shaped K n m t) :
+    PT.Shaped K n m (PT.reduceAux isRoot t) := by
+  match t with
+  | .node i c ks =>
+    obtain ⟨hwf, hin, hlen, hout, hdec, hk⟩ := h
+    have hk' := PKids.shaped_reduceAux ks K n m hk
+    have hnode : PT.Shaped K n m (.node i c (PKids.reduceAux ks)) := by
+      unfold PT.Shaped
+      simp only [PKids.reduceAux_allNone, PKids.reduceAux_length]
+      exact ⟨hwf, hin, hlen, hout, hdec, hk'⟩
+    simp only [PT.reduceAux]
+    cases isRoot with
+    | true => simpa using hnode
+    | false =>
+      simp only [Bool.false_eq_true, if_false]
+      cases hm : mergeable? (PKids.reduceAux ks) with
+      | none => exact hnode
+      | some a =>
+        obtain ⟨b, hks, _, _, _⟩ := mergeable_spec _ a hm
+        rw [hks] at hk'
+        simp only [PKids.Shaped] at hk'
+        exact hk'.1
+theorem PKids.shaped_reduceAux (ks : PKids α) (K n m : Nat) (h : PKids.Shaped K n m ks) :
+    PKids.Shaped K n m (PKids.reduceAux ks) := by
+  match ks with
+  | .nil => simp [PKids.reduceAux, PKids.Shaped]
+  | .cons none r => simp only [PKids.reduceAux, PKids.Shaped]; exact PKids.shaped_reduceAux r K n m h
+  | .cons (some k) r =>
+    simp only [PKids.reduceAux, PKids.Shaped]
+    exact ⟨PT.shaped_reduceAux false k K n m h.1, PKids.shaped_reduceAux r K n m h.2⟩
+end
+
+theorem C04_reduce (t : PT α) (K n m : Nat) (h : PT.Shaped K n m t) : PT.Shaped K n m (PT.reduce t) :=
+  PT.shaped_reduceAux true t K n m h
+
+/-- `AffTree::new(n)` / `from_aff(f)` -/
+theorem C04_ctor_from_aff (K : Nat) (f : Aff α) (hf : f.WF) : PT.Shaped K f.indim f.outdim (PT.fromAff K f) := by
+  unfold PT.fromAff PT.Shaped
+  have hall : ∀ k : Nat, (IKids.empty k : PKids α).allNone = true := by
+    intro k; induction k with
+    | zero => rfl
+    | succ k ih => simpa [IKids.empty, IKids.allNone] using ih
+  have hlen : ∀ k : Nat, (IKids.empty k : PKids α).length = k := by
+    intro k; induction k with
+    | zero => rfl
+    | succ k ih => simp [IKids.empty, IKids.length, ih]
+  exact ⟨hf, rfl, hlen K, fun _ => rfl, fun h => by rw [hall K] at h; simp at h, PKids.shaped_of_allNone _ K _ _ (hall K)⟩
+
+/-- one dimension-compatible transformation of a binary tree over `n` inputs: `HStep n m t m' t'` says that `t`
+    (output dimension `m`) is transformed into `t'` (output dimension `m'`).  These are the operations whose step
+    theorem is proved; the solver and heuristic oracles of `elim` are arbitrary. -/
+inductive HStep (n : Nat) : Nat → PT α → Nat → PT α → Prop where
+  | applyFunc (m : Nat) (t : PT α) (a : Aff α) (ha : a.WF) (hm : a.indim = m) :
+      HStep n m t a.outdim (PT.applyFunc t a)
+  | compose (m p : Nat) (t g : PT α) (c : Nat) (hg : PT.Shaped 2 m p g) :
+      HStep n m t p (PT.composeS Schema.compose t g c).1
+  | elim {σ : Type} (m : Nat) (t : PT α) (tol : α) (O : Oracles σ α) (s : σ) :
+      HStep n m t m (infeasibleElimination tol O n t s).1
+  | reduce (m : Nat) (t : PT α) : HStep n m t m (PT.reduce t)
+  | neg (m : Nat) (t : PT α) : HStep n m t m (PT.mapTerminals Aff.neg t)
+
+theorem C04_step_shaped (n m m' : Nat) (t t' : PT α) (h : PT.Shaped 2 n m t) (st : HStep n m t m' t') :
+    PT.Shaped 2 n m' t' := by
+  cases st with
+  | applyFunc _ _ a ha hm => subst hm; exact C04_apply_func t a 2 n ha h
+  | compose _ _ _ g c hg => exact C04_compose t g c 2 n m m' h hg
+  | elim _ _ tol O s => exact C04_elim tol O n m t s h
+  | reduce => exact C04_reduce t 2 n m h
+  | neg => exact C04_neg t 2 n m h
+
+/-- histories: any finite sequence of such steps -/
+inductive HSteps (n : Nat) : Nat → PT α → Nat → PT α → Prop where
+  | nil (m : Nat) (t : PT α) : HSteps n m t m t
+  | cons (m m' m'' : Nat) (t t' t'' : PT α) : HStep n m t m' t' → HSteps n m' t' m'' t'' → HSteps n m t m'' t''
+
+/-- every history from a well-formed tree ends in a well-formed tree (no bound on its length) -/
+theorem C04_history (n m m' : Nat) (t t' : PT α) (h : PT.Shaped 2 n m t) (hs : HSteps n m t m' t') :
+    PT.Shaped 2 n m' t' := by
+  induction hs with
+  | nil => exact h
+  | cons m m' m'' t t' t'' st _ ih => exact ih (C04_step_shaped n m m' t t' h st)
+
 end AV
